@@ -33,6 +33,14 @@ def generate(tier, seed):
                         dist["single_fault"] += 1
                 if tier == "quick" and len(cases) > 9000:
                     break
+        # every BATCH call of the alphabet with the adapter refusing / failing exactly that call (the quick tier's every-other
+        # sampling above would otherwise leave batch additions out)
+        for o in [x for x in al if x.startswith("AM:") or x.startswith("RM:")]:
+            for fault in "rf":
+                steps = list(obs) + [o] + obs + [o] + obs
+                lines = [["p", "p"] + r for r in p_rules(dom)[:2]] + [["g", "g"] + r for r in g_rules(dom)[:1]]
+                cases.append(case("eng", sp, adapter_X(adapter_M(lines), "p" + fault), "-", steps))
+                dist["batch_fault"] = dist.get("batch_fault", 0) + 1
         for _ in range(60 if tier == "quick" else 10000):
             n = rnd.choice([4, 10, 30])
             script = "p" + "".join(rnd.choice("ppprflh") for _ in range(n * 2))
